@@ -297,7 +297,7 @@ pub fn twins() -> &'static (Vec<Twin>, BTreeMap<&'static str, usize>) {
 // generator and runner
 // ---------------------------------------------------------------------------------------------------------------
 pub fn gen(rng: &mut Rng, thorough: bool, out: &mut Vec<String>) {
-    let (n_val, n_mut, n_bad) = if thorough { (80, 8, 40) } else { (8, 4, 5) };
+    let (n_val, n_mut, n_bad) = if thorough { (600, 8, 150) } else { (8, 4, 5) };
     for t in &twins().0 {
         let d = t.ws.desc.fmt();
         let head = format!("{} {}", t.name, d);
